@@ -618,3 +618,49 @@ Proof. reflexivity. Qed.
 Lemma str_is_repr_l h o st qn bs fs attrs :
   nth_error h o = Some (OI qn true bs fs attrs) -> str h o st = repr h (VRef o) st.
 Proof. intros H. unfold str. rewrite H. reflexivity. Qed.
+
+(** ** Non-vacuity examples (evaluated by the kernel) *)
+
+Example qualtail_examples :
+  qualtail "C" = "C" /\ qualtail "Outer.Inner" = "Outer.Inner" /\
+  qualtail "f.<locals>.C" = "C" /\ qualtail "f.<locals>.g.<locals>.Outer.C" = "Outer.C" /\
+  qualtail "f.<locals>.Outer.m.<locals>.C" = "C" /\ qualtail "a>.b>.>." = "".
+Proof. repeat split; reflexivity. Qed.
+
+(** c = C(x=l, y unset (init=False), z=1 with a re-entrant callable Z); l = [c, 1, d];
+    d = {'k': c, 'l': l}: cycles through an instance, a list and a dict. *)
+Definition ex_heap : heap :=
+  [ OI "f.<locals>.C" true None
+       [F "x" RTrue true; F "h" RFalse true; F "y" RTrue false; F "z" (RWrap "Z") true]
+       [("x", 1); ("h", 2); ("z", 2)];
+    OL [0; 2; 3]; OS "1"; OD [(4, 0); (5, 1)]; OS "'k'"; OS "'l'" ].
+
+Example repr_format_example :
+  repr ex_heap (VRef 0) (clean []) =
+    (Ok (format_spec "f.<locals>.C"
+           [F "x" RTrue true; F "h" RFalse true; F "y" RTrue false; F "z" (RWrap "Z") true]
+           ["[..., 1, {'k': ..., 'l': [...]}]"; "NOTHING"; "Z(1)"]), T (Some []) [] []) /\
+  format_spec "f.<locals>.C"
+           [F "x" RTrue true; F "h" RFalse true; F "y" RTrue false; F "z" (RWrap "Z") true]
+           ["[..., 1, {'k': ..., 'l': [...]}]"; "NOTHING"; "Z(1)"]
+  = "C(x=[..., 1, {'k': ..., 'l': [...]}], y=NOTHING, z=Z(1))" /\
+  str ex_heap 0 (clean []) = repr ex_heap (VRef 0) (clean []).
+Proof. repeat split; reflexivity. Qed.
+
+(** The callable of [z] fails: the exception propagates, nothing is left behind, and
+    the next repr is complete. *)
+Example residue_example :
+  let '(r1, st1) := repr ex_heap (VRef 0) (clean [true]) in
+  r1 = Raise EUser /\ aset st1 = [] /\ pr st1 = [] /\
+  fst (repr ex_heap (VRef 0) st1) = Ok "C(x=[..., 1, {'k': ..., 'l': [...]}], y=NOTHING, z=Z(1))".
+Proof. cbv zeta. repeat split; reflexivity. Qed.
+
+(** The fuel bound is not vacuous: too little fuel does run out on this heap. *)
+Example fuel_matters : fst (repr_val ex_heap 3 (VRef 0) (clean [])) = OutOfFuel.
+Proof. reflexivity. Qed.
+
+(** An unset [init=True] field: AttributeError, and again no residue. *)
+Example unset_init_example :
+  repr [OI "C" false None [F "a" RTrue true; F "b" RTrue true] [("a", 0)]] (VRef 0) (clean [])
+  = (Raise EAttr, T (Some []) [] []).
+Proof. reflexivity. Qed.
